@@ -87,3 +87,91 @@ Definition contact_handle_matches_registration (st : parent) (cl : caller) : Pro
 Definition publisher_handle_matches_registration (rp : repo) (cl : caller) : Prop :=
   forall pb, aget (cl_handle cl) (r_pubs rp) = Some pb -> pb_id pb = cl_id cl.
 
+
+(** * The trust-anchor proxy as local parent
+
+    When the parent of a local CA is the embedded trust anchor "ta", [send_rfc6492_and_validate_response]
+    takes the same shortcut; the parent is then not a [CertAuth] but the TA proxy aggregate
+    (src/server/taproxy.rs). REPAIRED TREE (manager.rs:2377-2381): the child named as sender is looked
+    up in the proxy's child table ([TrustAnchorProxy::get_child], 605-615) and the key identifier of
+    [TrustAnchorChild::id] (api/ta.rs:822-829) is compared with the caller's ID key. Then
+    [rfc6492_process_request] runs for "ta" (manager.rs:1048-1123; no implicit unsuspend, 1065):
+    list = [TrustAnchorProxy::entitlements] (641-704); issue / revoke = [ta_slow_rfc6492_request]
+    (manager.rs:1259-1322): hand out a waiting response ([ChildResponseGiven], taproxy.rs:232-239,
+    505-524), or answer "already scheduled", or queue the request for the TA signer
+    ([process_add_child_request] 446-503, [ChildRequestAdded] 221-231); the child status of ("ta", child)
+    is recorded as for any parent. What the proxy and the signer do with queued requests is C15's subject.
+
+    Simplifications: two requests for the same key and of the same kind count as "matching"
+    ([matching_open_request] also compares class, limit and CSR); certificate contents and the
+    entitlement reply are not modelled (the result is only: refused / acted for the child, ok or not). *)
+
+Record tachild := mkTaChild {
+  tc_id : key;                        (* TrustAnchorChild::id *)
+  tc_ent : N;                         (* resources *)
+  tc_used : list (N * ukstate);       (* used_keys *)
+  tc_open_req : list (N * bool);      (* open_requests: key -> is it an issuance request *)
+  tc_open_resp : list (N * bool);     (* open_responses *)
+  tc_last : option (N * bool) }.      (* status store: user agent and result of the last exchange *)
+
+Record taproxy := mkTa { ta_children : list (handle * tachild); ta_hist : N }.
+
+Definition ta_rcn : N := 1000.        (* the TA's only resource class, "default" *)
+
+Definition tc_with_req (l : list (N * bool)) (ch : tachild) : tachild :=
+  mkTaChild (tc_id ch) (tc_ent ch) (tc_used ch) l (tc_open_resp ch) (tc_last ch).
+Definition tc_with_resp (l : list (N * bool)) (ch : tachild) : tachild :=
+  mkTaChild (tc_id ch) (tc_ent ch) (tc_used ch) (tc_open_req ch) l (tc_last ch).
+Definition tc_with_last (l : option (N * bool)) (ch : tachild) : tachild :=
+  mkTaChild (tc_id ch) (tc_ent ch) (tc_used ch) (tc_open_req ch) (tc_open_resp ch) l.
+
+(** [ta_slow_rfc6492_request] for key [k]; [valid] is the verdict of [process_add_child_request]'s checks. *)
+Definition ta_slow (st : taproxy) (c : handle) (ch : tachild) (k : N) (issue valid : bool) : taproxy * bool :=
+  match aget k (tc_open_resp ch) with
+  | Some kind =>
+      if Bool.eqb kind issue
+      then (mkTa (aupd c (tc_with_resp (aremove k (tc_open_resp ch))) (ta_children st)) (ta_hist st + 1), true)
+      else (st, false)                                    (* "Response ... does not match request type" *)
+  | None =>
+      match aget k (tc_open_req ch) with
+      | Some kind =>
+          if Bool.eqb kind issue then (st, true)          (* already scheduled: not-performed 1101, an Ok reply *)
+          else if valid then (mkTa (aupd c (tc_with_req (ainsert k issue (tc_open_req ch))) (ta_children st)) (ta_hist st + 1), true)
+               else (mkTa (ta_children st) (ta_hist st + 1), false)
+      | None =>
+          if valid then (mkTa (aupd c (tc_with_req (ainsert k issue (tc_open_req ch))) (ta_children st)) (ta_hist st + 1), true)
+          else (mkTa (ta_children st) (ta_hist st + 1), false)   (* the failed command is stored *)
+      end
+  end.
+
+(** [rfc6492_process_request] for the parent "ta" and child [c]: [None] = the child is unknown (the
+    repaired shortcut never gets here), [Some ok] = acted for [c], the status entry says [ok]. *)
+Definition ta_process (st : taproxy) (ua : N) (c : handle) (r : req) : taproxy * option bool :=
+  match aget c (ta_children st) with
+  | None => (st, None)
+  | Some ch =>
+      let '(st1, ok) :=
+        match r with
+        | RList => (st, true)
+        | RIssue rcn k limit csr_ok =>
+            ta_slow st c ch k true ((rcn =? ta_rcn) && csr_ok &&
+                                    match limit with None => true | Some l => subset l (tc_ent ch) end)
+        | RRevoke rcn k =>
+            ta_slow st c ch k false ((rcn =? ta_rcn) &&
+                                     match aget k (tc_used ch) with Some (InUse _) => true | _ => false end)
+        | ROther => (st, false)
+        end in
+      (mkTa (aupd c (tc_with_last (Some (ua, ok))) (ta_children st1)) (ta_hist st1), Some ok)
+  end.
+
+(** The shortcut without the key comparison (the originally pinned tree; also what a lookup that only
+    knows [CertAuth] parents amounts to for "ta"). *)
+Definition ta_local6492_pinned (st : taproxy) (cl : caller) (r : req) : taproxy * option bool :=
+  ta_process st local_ua (cl_contact_child cl) r.
+
+(** The repaired shortcut. *)
+Definition ta_local6492 (st : taproxy) (cl : caller) (r : req) : taproxy * option bool :=
+  match aget (cl_contact_child cl) (ta_children st) with
+  | None => (st, None)
+  | Some ch => if tc_id ch =? cl_id cl then ta_local6492_pinned st cl r else (st, None)
+  end.
